@@ -368,6 +368,7 @@ func tryNormalForms(id, tier, repo string, rep *Report, known *KnownFile) (*Repo
 		"value writer": {"writeValue", "writeMap"}, "string writer": {"writeString"}, "value reader": {"readValue"}, "string reader": {"readString"},
 		"response former": {"FormErrorsResult"}, "registry": {"AddEvent", "Unsubscribe", "subscribe"}, "evaluator": {"skipSel"},
 		"loader": {"ParseReader", "AddTypes", "addTypes", "addExtends"}, "printer": {"SDL"},
+		"interface conformance check": {"validateField", "validateInterface", "isSubType"},
 	} {
 		if strings.Contains(openText, role) {
 			for _, f := range fnames {
